@@ -15,7 +15,7 @@ ENGINE_TEXT = {
 
 INTEGRATION_NOTE = "; every 6th run is an integration run: the machine is a component (or the selected autonomous mode) of a generated MagicRobot executed by engine robot, so engage() comes from teleopPeriodic, on_disable() from real mode changes, pacing from the real NotifierDelay and, for autonomous modes, tm from the selector's timer"
 
-def _sm(rule, probes, quick=9000, thorough=400000):
+def _sm(rule, probes, quick=15000, thorough=400000):
     rule = rule + INTEGRATION_NOTE
     probes = list(probes) + ["integration_runs", "embedded_machine_stops"] + ([] if "AutonomousStateMachine" in rule else ["twin_ops"])
     rule = rule + "; in a fifth of the plain-StateMachine runs a second live machine of the same class is driven by its own history between the first one's calls and must stay untouched"
@@ -57,7 +57,7 @@ REAL_STUB_ROBOT = {
 }
 ENGINE_TEXT["robot"] = "whole MagicRobot lifetime on the main thread with hal.waitForNotifierAlarm inverted into the scheduler; generated robot/components/modes; DS packets, stalls, late wake-ups, raising callbacks, shutdown at arbitrary call sites; also executes the integration runs of C01-C04, C13, C15 (machine embedded in a robot) and C19 (the robot's loop watchdog)"
 
-def _robot(rule, probes, level_text, quick=4000, thorough=200000, level="exploration"):
+def _robot(rule, probes, level_text, quick=8000, thorough=200000, level="exploration"):
     return {
         "engine": "robot", "level": level, "rule": rule,
         "level_text": level_text,
@@ -76,7 +76,7 @@ PROPS.update({
                   ["session_auto", "session_teleop", "session_test", "session_disabled", "enabled_to_enabled_switch"], _ROBOT_LT),
     "C06": _robot("as C05, lifecycle-heavy layouts; non-trivial = a direct enabled->enabled switch or a zero/one-iteration session; distinct = distinct expected callback-role sequence",
                   ["zero_iteration_session", "one_iteration_session", "enabled_to_enabled_switch", "test_to_enabled_switch", "ended_by_endCompetition_event"], _ROBOT_LT),
-    "C07": _robot("systematic part: the full product of 3 fixed robot layouts x every call site of the property's list (component on_enable/on_disable/execute, mode init/periodic hooks incl. robotPeriodic and teleopPeriodic-in-autonomous, feedback getters, autonomous mode on_enable/on_iteration/on_disable) x 6 mode schedules (teleop, auto, test, disabled, teleop->auto->test->teleop tour, auto ended by endCompetition) x fault at first / third / every visit x FMS attached / not = 1980 cases (thorough tier runs all of them first, quick tier a 700-case stride sample); then seeded random robots with 1-3 simultaneous faulty sites, FMS flips, stalls and packets inside callbacks; non-trivial = a fault fired at a reached site; distinct = distinct enumeration case, or distinct expected callback-role sequence for random runs",
+    "C07": _robot("systematic part: the full product of 3 fixed robot layouts x every call site of the property's list (component on_enable/on_disable/execute, mode init/periodic hooks incl. robotPeriodic and teleopPeriodic-in-autonomous, feedback getters, autonomous mode on_enable/on_iteration/on_disable) x 6 mode schedules (teleop, auto, test, disabled, teleop->auto->test->teleop tour, auto ended by endCompetition) x fault at first / third / every visit x FMS attached / not = 1980 cases (thorough tier runs all of them first, quick tier a 1000-case stride sample); then seeded random robots with 1-3 simultaneous faulty sites, FMS flips, stalls and packets inside callbacks; non-trivial = a fault fired at a reached site; distinct = distinct enumeration case, or distinct expected callback-role sequence for random runs",
                   ["faults_swallowed_run", "exception_left_robot_program", "enumerated_cases_fault_reached"],
                   "fault enumeration over the product of call site x mode schedule x visit x FMS state on fixed layouts, followed by seeded random multi-fault lifetimes; oracle: with the FMS attached the observed callback log equals the expected log in which every other callback still runs in order and the loop keeps iterating, without the FMS the injected exception object leaves startCompetition() at exactly that call; enumeration is complete over the stated product only, the rest is sampling",
                   level="fault_enumeration"),
@@ -92,7 +92,7 @@ PROPS["C15"] = {
     "rule": "seeded mode definitions (chains/loops/branches, 16 signatures, registered variables) and per-period tm sequences aimed at expiry instants, dashboard edits between and during periods, 1-4 periods, sequential second instance; non-trivial = a state is entered in a second or later period or a state is re-entered; distinct = distinct trace shape" + INTEGRATION_NOTE,
     "level_text": "seeded search over autonomous-period histories on the real StatefulAutonomous with real NetworkTables values; every on_iteration compared with a reference model written from the property text plus model-independent history invariants; sampling, not proof",
     "level_note": "trusted: local ntcore; reference model/invariants in /verif; <=5 states, <=100 iterations per period, <=4 periods; iterations only between on_enable and on_disable (the selector's protocol); two instances never interleaved",
-    "quick": {"runs": 9000, "wall_s": 150}, "thorough": {"runs": 400000, "wall_s": 1500},
+    "quick": {"runs": 15000, "wall_s": 150}, "thorough": {"runs": 400000, "wall_s": 1500},
     "probes_expected": ["expiry_handover", "entries_in_later_period", "entry_with_state_tm_gt_0", "next_state_to_self", "idle_iteration_after_end", "integration_runs"],
     "state_measure": "abstract model states (kind of current state, fresh, enabled) and (state, op, state) transitions, hashed",
     "real_vs_stub": {"real": ["robotpy_ext.autonomous.stateful_autonomous from the working tree", "ntcore local instance (SmartDashboard table)", "HAL simulated clock"],
@@ -106,7 +106,7 @@ PROPS["C16"] = {
     "rule": "seeded periods (>= 1 ms, incl. values whose microsecond conversion truncates) and loop-body durations shorter than / equal to / several times the period, late wake-ups, free()/with-exit/double free at random points followed by more wait() calls; non-trivial = an overrun followed by a wait that sleeps again (catch-up observed); distinct = distinct sequence of (op, sleep/exact/overrun class)",
     "level_text": "seeded search over loop-timing schedules on the real HAL notifier; every wait() checked against the t0 + k*P grid exactly in integer microseconds; sampling, not proof",
     "level_note": "trusted: WPILib HAL simulation notifier implementation; the period is read at the HAL's 1 us resolution (any fixed integer p with |p - P*1e6| < 1); one NotifierDelay alive at a time (the previously released one stays referenced and may still be waited on)",
-    "quick": {"runs": 9000, "wall_s": 150}, "thorough": {"runs": 400000, "wall_s": 1500},
+    "quick": {"runs": 15000, "wall_s": 150}, "thorough": {"runs": 400000, "wall_s": 1500},
     "probes_expected": ["wait_slept", "wait_exact", "wait_overrun", "caught_up_after_overrun", "wait_after_free", "freed_by_exit", "freed_by_free_twice", "entered_later", "stale_wait_on_released_instance"],
     "state_measure": "(op, wait class) pairs and their successions, hashed",
     "real_vs_stub": {"real": ["robotpy_ext.misc.precise_delay.NotifierDelay", "HAL notifier bookkeeping (initialize/update/wait/stop/clean)", "HAL simulated clock"],
@@ -118,7 +118,7 @@ PROPS["C19"] = {
     "rule": "seeded (clock advance, button level / log level / watchdog call, accessor) histories with advances on, one tick before and after the period; one of Toggle, Toggle+debounce, ButtonDebouncer (+set_debounce_period), PeriodicFilter, SimpleWatchdog per run; non-trivial = at least two toggles / Trues / passed records, or a warning plus two expiry queries; distinct = distinct (input, outcome) sequence",
     "level_text": "seeded search over sampling histories on the paused HAL clock, each sample checked against the property's sentences (edge-triggered toggle, on == not off, debounce spacing, bypass level, expiry iff elapsed > timeout, warning rate); sampling, not proof",
     "level_note": "trusted: HAL simulated clock; time.monotonic in periodic_filter replaced by a shim onto it; exact comparison on 1/64 s grid runs, 1e-7 s dead band at boundaries on microsecond runs",
-    "quick": {"runs": 9000, "wall_s": 150}, "thorough": {"runs": 400000, "wall_s": 1500},
+    "quick": {"runs": 15000, "wall_s": 150}, "thorough": {"runs": 400000, "wall_s": 1500},
     "probes_expected": ["kind_toggle", "kind_toggle_db", "kind_debouncer", "kind_pfilter", "kind_watchdog", "toggle_changes", "debounced_second_change",
                         "debouncer_true", "debouncer_suppressed", "pfilter_low_passed", "pfilter_low_blocked", "watchdog_warning", "watchdog_warning_rate_limited",
                         "watchdog_expired_True", "watchdog_expired_False"],
@@ -134,7 +134,7 @@ PROPS["C09"] = {
     "rule": "seeded owner classes (inheritance, every supported tunable kind incl. bytes, structs, arrays, type-hinted empty sequences, subtables, writeDefault on/off), 1-3 instances under components/autonomous/no prefix, values present before setup, then interleaved python-side and client-side writes/reads and restarts; after every write every attribute of every instance is read from both sides; every 8th run lets a real MagicRobot.robotInit() create and bind the owners (components by annotation, the robot class itself, an autonomous mode found by the selector) instead of calling setup_tunables directly; non-trivial = both sides wrote the same topic; distinct = distinct sequence of (op, kind)",
     "level_text": "seeded search over interleavings of robot-code and NetworkTables-client accesses on the real ntcore local instance with a key->value reference map as oracle, plus topic name/type checks at every (re)setup; sampling, not proof",
     "level_note": "trusted: ntcore local instance (no network transport; client = second set of handles in the same process); struct types Rotation2d/Translation2d stand for all WPIStruct types",
-    "quick": {"runs": 6000, "wall_s": 150}, "thorough": {"runs": 300000, "wall_s": 1500},
+    "quick": {"runs": 9000, "wall_s": 150}, "thorough": {"runs": 300000, "wall_s": 1500},
     "probes_expected": ["both_sides_wrote_same_topic", "default_overwrote_existing", "existing_value_preserved", "multi_instance_runs", "python_writes", "client_writes", "framework_setup_runs"],
     "state_measure": "(op, tunable kind, writeDefault, subtable, owner prefix) combinations exercised, hashed (no transition measure)",
     "real_vs_stub": {"real": ["magicbot.magic_tunable (tunable, setup_tunables)", "ntcore local instance, typed topics, struct serialisation"],
@@ -148,7 +148,7 @@ PROPS["C14"] = {
     "rule": "seeded package layouts (0-4 modules x 0-3 classes, MODE_NAME/DISABLED/DEFAULT flags, helper classes, duplicate names, several defaults, 4 kinds of import failure, raising constructors, missing package, namespace package, dotted package name), FMS attached or not, permuted directory listing; then seeded start/periodic/disable sequences with stray calls and run() periods ended by the driver station or endCompetition, with chooser / 'Auto Selector' writes between and during periods; non-trivial = a period with an active mode among >= 2 healthy modes, or a discovery fault; distinct = distinct (discovery outcome, op, active?) sequence",
     "level_text": "seeded search over package layouts, discovery faults and call/selection histories on the real selector, SendableChooser, SmartDashboard and HAL notifier; discovery and every delivered callback checked against the property's sentences; sampling, not proof",
     "level_note": "trusted: importlib on real files in a per-run scratch directory, WPILib SendableChooser/SmartDashboard, HAL simulation; mode callbacks never raise here (that is C07's); periodic() before the first start() is outside the quantifier",
-    "quick": {"runs": 4000, "wall_s": 150}, "thorough": {"runs": 200000, "wall_s": 1500},
+    "quick": {"runs": 8000, "wall_s": 150}, "thorough": {"runs": 200000, "wall_s": 1500},
     "probes_expected": ["startup_raised_as_required", "startup_tolerated_faults_under_fms", "period_with_mode", "period_without_mode", "run_period_with_mode", "zero_iteration_run",
                         "stray_periodic_while_inactive", "stray_disable_while_inactive", "start_without_disable"],
     "state_measure": "(op, mode active?, started before?) states and their successions, hashed",
